@@ -1,4 +1,5 @@
 import math
+import os
 from abc import ABC, abstractmethod
 from dataclasses import dataclass
 from functools import partial
@@ -11,6 +12,24 @@ from jax import jit, lax, random, vmap
 
 from ad_afqmc import linalg_utils, sr, wavefunctions
 from ad_afqmc.wavefunctions import wave_function
+
+# verification hooks: inert unless ANKIT76_AD_AFQMC_VERIF=1 *and* the harness pre-seeded the
+# float keys "verif_ovlp_incoh" / "verif_ovlp_checks" / "verif_imp_fun" / "verif_theta"
+_VERIF = os.environ.get("ANKIT76_AD_AFQMC_VERIF") == "1"
+
+
+def _verif_overlap_hook(trial, prop_data, wave_data):
+    if _VERIF and "verif_ovlp_incoh" in prop_data:
+        walkers = jax.tree_util.tree_map(lax.stop_gradient, prop_data["walkers"])
+        fresh = lax.stop_gradient(trial.calc_overlap(walkers, wave_data))
+        cached = lax.stop_gradient(prop_data["overlaps"])
+        rel = jnp.abs(cached - fresh) / jnp.abs(cached)
+        rel = jnp.where(lax.stop_gradient(prop_data["weights"]) > 0, rel, 0.0)
+        prop_data["verif_ovlp_incoh"] = jnp.maximum(
+            prop_data["verif_ovlp_incoh"], jnp.max(rel)
+        )
+        prop_data["verif_ovlp_checks"] = prop_data["verif_ovlp_checks"] + 1.0
+    return prop_data
 
 
 @dataclass
@@ -118,6 +137,7 @@ class propagator(ABC):
         Returns:
             prop_data: dictionary containing the updated propagation data
         """
+        prop_data = _verif_overlap_hook(trial, prop_data, wave_data)
         force_bias = trial.calc_force_bias(prop_data["walkers"], ham_data, wave_data)
         field_shifts = -jnp.sqrt(self.dt) * (1.0j * force_bias - ham_data["mf_shifts"])
         shifted_fields = fields - field_shifts
@@ -145,6 +165,9 @@ class propagator(ABC):
             * overlaps_new
             / prop_data["overlaps"]
         )
+        if _VERIF and "verif_imp_fun" in prop_data:
+            prop_data["verif_imp_fun"] = imp_fun
+            prop_data["verif_theta"] = theta
         imp_fun_phaseless = jnp.abs(imp_fun) * jnp.cos(theta)
         imp_fun_phaseless = jnp.array(
             jnp.where(jnp.isnan(imp_fun_phaseless), 0.0, imp_fun_phaseless)
@@ -557,6 +580,7 @@ class propagator_cpmc(propagator_unrestricted):
         prop_data: dict,
         wave_data: dict,
     ) -> dict:
+        prop_data = _verif_overlap_hook(trial, prop_data, wave_data)
         prop_data["walkers"][0] = jnp.einsum(
             "ij,wjk->wik", ham_data["exp_h1"][0], prop_data["walkers"][0]
         )
@@ -701,6 +725,7 @@ class propagator_cpmc_slow(propagator_cpmc, propagator_unrestricted):
         Returns:
             prop_data: dictionary containing the updated propagation data
         """
+        prop_data = _verif_overlap_hook(trial, prop_data, wave_data)
         # one body
         prop_data["walkers"][0] = jnp.einsum(
             "ij,wjk->wik", ham_data["exp_h1"][0], prop_data["walkers"][0]
@@ -815,6 +840,7 @@ class propagator_cpmc_slow(propagator_cpmc, propagator_unrestricted):
         Returns:
             prop_data: dictionary containing the updated propagation data
         """
+        prop_data = _verif_overlap_hook(trial, prop_data, wave_data)
         # one body
         prop_data["walkers"][0] = jnp.einsum(
             "ij,wjk->wik", ham_data["exp_h1"][0], prop_data["walkers"][0]
@@ -1308,6 +1334,7 @@ class propagator_cpmc_nn_slow(propagator_unrestricted):
         Returns:
             prop_data: dictionary containing the updated propagation data
         """
+        prop_data = _verif_overlap_hook(trial, prop_data, wave_data)
         # one body
         prop_data["walkers"][0] = jnp.einsum(
             "ij,wjk->wik", ham_data["exp_h1"][0], prop_data["walkers"][0]
@@ -1646,6 +1673,7 @@ class propagator_cpmc_continuous(propagator_unrestricted):
         Returns:
             prop_data: dictionary containing the updated propagation data
         """
+        prop_data = _verif_overlap_hook(trial, prop_data, wave_data)
         # one body
         prop_data["walkers"][0] = jnp.einsum(
             "ij,wjk->wik", ham_data["exp_h1"][0], prop_data["walkers"][0]
